@@ -1,1 +1,3 @@
 import PV.Props.C15
+import PV.Props.C18
+import PV.Props.C20
